@@ -106,6 +106,18 @@ def rewire(n, rng):
 def run_case(ctx, i, rng):
     n = gen_ir.generate(rng, profile="edif" if i % 2 else "any", share=0.6, ndefs=rng.randint(3, 9),
                         max_children=rng.choice([2, 3, 4]))
+    # a netlist is a netlist however it came about: the copy made by clone(), the result of uniquify
+    if i % 4 == 3:
+        n = n.clone()
+        ctx.count("cloned_netlists_traced")
+    elif i % 4 == 1 and n.top_instance is not None:
+        try:
+            from spydrnet.uniquify import uniquify
+            uniquify(n)
+            ctx.count("uniquified_netlists_traced")
+        except Exception as ex:  # noqa: BLE001 - C08's business
+            ctx.count("uniquify_failed:%s" % type(ex).__name__)
+            return
     st = gen_ir.shape_stats(n)
     r = check_netlist(ctx, i, rng, n, st, "")
     if r is None:
